@@ -239,6 +239,10 @@ def make(kind, seed, world, ip, tap, reach):
                 if not done:
                     return None
                 what = f'rekey selectors narrowed ({which})'
+                if r.random() < 0.5:
+                    # ... by a responder that does not echo the REKEY_SA notification (RFC 7296 wants it in the request only)
+                    pls[:] = [p for p in pls if not (p['type'] == R.P_NOTIFY and p['ntype'] == R.N_REKEY_SA)]
+                    count('byz.narrow_rekey_response.no_rekey_sa_echo')
             elif kind == 'widen_response':
                 which = r.choice(['tsi', 'tsr', 'both'])
                 honest = {'tsi': copy.deepcopy(tsi['selectors']), 'tsr': copy.deepcopy(tsr['selectors'])}
